@@ -168,12 +168,14 @@ fn c13_range_pop() {
     let (lo2, hi2) = alpha(&r);
     assert!(r.is_bounded(), "C13.range: a bounded range stays bounded");
     if lo < hi {
+        // the remaining set is the old interval minus the popped element; an empty interval has no canonical bounds
+        let last = hi - lo == 1;
         if front {
             assert!(got.map(|x| x as i128) == Some(lo), "C13.range: pop_front yields the smallest remaining element");
-            assert!(lo2 == lo + 1 && hi2 == hi, "C13.range: pop_front removes exactly the smallest element");
+            assert!(if last { lo2 >= hi2 } else { lo2 == lo + 1 && hi2 == hi }, "C13.range: pop_front removes exactly the smallest element");
         } else {
             assert!(got.map(|x| x as i128) == Some(hi - 1), "C13.range: pop_back yields the largest remaining element");
-            assert!(lo2 == lo && hi2 == hi - 1, "C13.range: pop_back removes exactly the largest element");
+            assert!(if last { lo2 >= hi2 } else { lo2 == lo && hi2 == hi - 1 }, "C13.range: pop_back removes exactly the largest element");
         }
     } else {
         assert!(got.is_none(), "C13.range: an exhausted range yields nothing");
